@@ -266,6 +266,12 @@ func parseExpr(in []byte) (Q, int, error) {
 		if subQ == nil {
 			return nil, 0, fmt.Errorf("query: '-' operator needs an argument")
 		}
+		switch subQ.(type) {
+		case *caseQ, *Type:
+			// These are directives for the enclosing expression list, not
+			// queries: they only exist until parseExprList lifts them.
+			return nil, 0, fmt.Errorf("query: '-' operator cannot be applied to case: or type:")
+		}
 		b = b[n:]
 		expr = &Not{subQ}
 
